@@ -239,13 +239,14 @@ pub fn wl_mutex<M: RawMutex + Send + Sync + 'static>(seed: u64, n: usize, rounds
     let names = ["try_lock", "lock"];
     queues_empty(ctx, "mutex", &mut |v| m.verif_inspect(v));
     let total = acquired.load(Relaxed);
-    // every guard and every future is gone: the mutex must be free (a crate that is broken elsewhere may fail this)
+    // every guard and every future is gone: is_locked() must be false (C02). Whether try_lock() succeeds is not
+    // asked here: on a crate that is broken elsewhere a fair mutex refuses it because of a leftover queue entry,
+    // which is C01's business (`queues_empty` above), not C02's.
+    let still_locked = m.is_locked();
+    ctx.check("C02", "is_locked-false-once-every-guard-is-dropped", true, !still_locked, || "is_locked() is true although no guard is alive".into());
     let value = match m.try_lock() {
         Some(g) => *g,
-        None => {
-            ctx.check("C02", "mutex-free-once-every-guard-is-dropped", true, false, || "try_lock() fails although no guard and no lock future is alive".into());
-            total
-        }
+        None => total,
     };
     let ov = overlap.load(Relaxed);
     ctx.check("C02", "threads-never-inside-the-critical-section-together", total > 0, ov == 0, || format!("{} overlapping critical sections observed", ov));
